@@ -56,6 +56,10 @@ MC_GENESIS_Q = mc("MC_Genesis_q", Templates={"B1", "F1"}, MaxAuc=2, Amts={2}, Pr
                   Dev={"genesis_drops_lastMatched"} - {"genesis_drops_lastMatched"})
 MC_MULTI_Q = mc("MC_Multi_q", Templates={"B0", "F0"}, MaxAuc=2, Amts={2}, Prices={2}, MaxBids=1, Tmax=4, Jump=2)
 
+TC_EXT_Q = mc("TC_Ext_q", Templates={"B5"}, Prices={1, 2}, Amts={2}, MaxBids=3, Tmax=5, Jump=1, CapSet={2, 4}, StartOffsets={0},
+              CreateUntil=0, Dur=2, MaxMods=0, Bidders={"u2"})
+TC_FIXED_Q = mc("TC_Fixed_q", Templates={"F1"}, Amts={1, 2, 4}, MaxBids=2, Tmax=7, Jump=2, CapSet={3, 5}, StartOffsets={0, 1}, CreateUntil=1)
+TC_BATCH_Q = mc("TC_Batch_q", Templates={"B1"}, Prices={1, 2}, Amts={1, 3}, MaxBids=2, Tmax=8, Jump=2, StartOffsets={0, 1}, CreateUntil=1)
 GEN_GENERAL = [
     gen("sysA", 150, 40, Templates={"B0", "B1", "B2", "F0", "F1"}, MaxAuc=2, Prices={1, 2, 3}, Amts={1, 2, 3, 5, 8},
         CapSet={3, 5, 10}, MaxBids=6, MaxDon=2, Tmax=24, Jump=3, CreateUntil=6, StartOffsets={0, 1, 2}, Dur=3, WithInvalid=True, WithGenesis=False),
@@ -98,7 +102,7 @@ PLANS = {
     "C10": dict(mc=[MC_INVALID1_Q, MC_INVALIDF_Q], gen=GEN_GENERAL),
     "C11": dict(mc=[MC_BATCH_Q], gen=GEN_GENERAL),
     "C12": dict(mc=[MC_INVALID1_Q, MC_INVALIDF_Q], gen=GEN_GENERAL),
-    "C13": dict(mc=[MC_BATCH_Q], gen=GEN_GENERAL),
+    "C13": dict(mc=[MC_BATCH_Q], gen=GEN_GENERAL, tc=[TC_EXT_Q], tc_max=6000),
     "C15": dict(mc=[MC_GENESIS_Q], gen=[dict(g, consts=dict(g["consts"], WithGenesis=True, KindBag=("<-", "BagGenesis"),
                                                  Templates=set(g["consts"]["Templates"]) | {"Bx"})) for g in GEN_GENERAL]),
     "C16": dict(mc=[MC_BATCH_Q, MC_FIXED_Q], gen=GEN_GENERAL),
